@@ -1523,8 +1523,9 @@ def b_squeeze(W, v):
         legs, labels, axes, arg = [t0, t1], ['s', 't'], [0, 1], None
     elif v == 'one':
         legs, labels, axes, arg = [t0, l0, t1], ['s', 'a', 't'], [2], 't'
-    else:
-        legs, labels, axes, arg = [t0, l0, t1], ['s', 'a', 't'], [0, 2], None
+    else:  # numpy convention: axes=None squeezes every leg of length 1 (also l0 if it happens to have length 1)
+        legs, labels, arg = [t0, l0, t1], ['s', 'a', 't'], None
+        axes = [k for k, l in enumerate(legs) if l.ind_len == 1]
     a = W.tensor('a', legs, labels=labels)
     keep = [k for k in range(len(legs)) if k not in axes]
     q = np.array(a.qtotal)
